@@ -248,7 +248,7 @@ def denote_term(t, ps, crate):
         node = ps.closures.get(t[1])
         cap = {}
         if len(t) > 2:
-            cap = {i: v[2] for (i, v) in t[2] if isinstance(v[2], (int, bool))}
+            cap = {i: v[2] for (i, v) in t[2] if v[0] == "lit" and isinstance(v[2], (int, bool))}
         return denote_closure(node, crate, cap) if node is not None else None
     if t[0] == "fn":
         return denote_fn(crate, t[1])
